@@ -164,12 +164,16 @@ def nodeCreateAt (fs : FS) (n : Node) (p : Path) : FS × Bool :=
   | .socket => (fs, true)
   | .other => (fs, false)
 
+/-- `fs.Remove(target)` where "does not exist" is not an error -/
+def removeIfThere (fs : FS) (p : Path) : FS × Bool :=
+  match lstat fs p with
+  | none => (fs, true)
+  | some _ => remove fs p
+
 /-- `restoreNodeTo`: Remove, NodeCreateAt, metadata -/
 def restoreNodeTo (cfg : Cfg) (fs : FS) (n : Node) (rel : Path) : FS × Bool :=
   let p := cfg.dst ++ rel
-  let (fs1, ok1) := match lstat fs p with
-    | none => (fs, true)
-    | some _ => remove fs p
+  let (fs1, ok1) := removeIfThere fs p
   if !ok1 then (fs1, false) else
   match nodeCreateAt fs1 n p with
   | (fs2, false) => (fs2, false)
@@ -178,9 +182,7 @@ def restoreNodeTo (cfg : Cfg) (fs : FS) (n : Node) (rel : Path) : FS × Bool :=
 /-- `restoreHardlinkAt` -/
 def restoreHardlinkAt (cfg : Cfg) (fs : FS) (n : Node) (orig rel : Path) : FS × Bool :=
   let p := cfg.dst ++ rel
-  let (fs1, ok1) := match lstat fs p with
-    | none => (fs, true)
-    | some _ => remove fs p
+  let (fs1, ok1) := removeIfThere fs p
   if !ok1 then (fs1, false) else
   match link fs1 (cfg.dst ++ orig) p with
   | (fs2, false) => (fs2, false)
@@ -299,17 +301,25 @@ def traverseDir (cfg : Cfg) (v : Visitor) (nodeRel : Path) : Node → Bool → S
     | (st, fn, hr, fatal) => if fatal then (st.err, [], hr) else (st, fn, hr)
 end
 
-/-- `traverseTree`; the Bool says whether the pass was aborted by a fatal error -/
-def traverseTree (cfg : Cfg) (v : Visitor) (tree : List Node) (st : St) : St × Bool :=
-  let st := match v.enterDir with
-    | some f => sanitize (f st [])
-    | none => st
-  match traverseNodes cfg v [] tree st [] false with
+/-- the root part of `traverseTree` before the loop: `enterDir(nil, target, "/")` -/
+def rootEnter (v : Visitor) (st : St) : St :=
+  match v.enterDir with
+  | some f => sanitize (f st [])
+  | none => st
+
+/-- the root part of `traverseTree` after the loop; the Bool says whether the pass was aborted
+    by a fatal error -/
+def rootLeave (v : Visitor) (r : St × List Name × Bool × Bool) : St × Bool :=
+  match r with
   | (st, fn, hr, fatal) =>
     if fatal then (st, true) else
     match hr, v.leaveDir with
     | true, some f => (sanitize (f st none [] fn), false)
     | _, _ => (st, false)
+
+/-- `traverseTree` -/
+def traverseTree (cfg : Cfg) (v : Visitor) (tree : List Node) (st : St) : St × Bool :=
+  rootLeave v (traverseNodes cfg v [] tree (rootEnter v st) [] false)
 
 def firstPass (cfg : Cfg) : Visitor :=
   { enterDir := some (fun st rel => firstEnterDir cfg st rel),
